@@ -13,6 +13,9 @@
 /* ---- ghost state (nondeterministic statics under DFCC; never read by library code) ---- */
 /* generic witnesses: an arbitrary index / element position, fixed by the harness, never written by code */
 int verif_w, verif_k;
+/* C02 */
+int verif_hs[5];      /* pre-state s_i = score_i - senscore_i of the HMM under evaluation */
+int verif_hact[5];    /* pre-state activity of each state (multiplex HMMs) */
 /* C20 */
 size_t verif_keylen;  /* length of the NUL-terminated key handed to key2hash */
 #define SPEC_UP(c) (((c) >= 'a' && (c) <= 'z') ? (char)((c) - 32) : (char)(c))
